@@ -37,9 +37,29 @@ class EntryGen:
         ctx.require(len(full) == 1, f"expected one full-call format site, found {len(full)}")
         self.full = full[0]
         kw = {k.arg: k.value for k in self.full.keywords}
-        ctx.require({"lookup", "posargs"} <= set(kw), "the full call lacks lookup= / posargs=")
-        self.lookup = self._base_list(kw["lookup"])
-        self.posargs = self._base_list(kw["posargs"])
+        # which template field is the lookup key and which the forwarded arguments: read it off the template
+        sk = from_format(mod.str_constants[self.call_tpl])
+        self.f_lookup = self.f_posargs = None
+        for n in ast.walk(sk.tree):
+            if isinstance(n, ast.Subscript) and dotted(n.value) == "OVLD.map":
+                hs = [h for x in ast.walk(n.slice) if isinstance(x, ast.Name) for h in sk.hole_of(x.id)]
+                self.f_lookup = hs[0] if hs else None
+            if isinstance(n, ast.Return) and isinstance(n.value, ast.Call):
+                hs = [h for a in n.value.args if isinstance(a, ast.Name) for h in sk.hole_of(a.id)]
+                self.f_posargs = hs[0] if hs else None
+        import re as _re
+
+        tpl_text = mod.str_constants[self.call_tpl]
+        if not self.f_lookup:
+            m = _re.search(r"OVLD\.map[^\n]*?\{(\w+)\}", tpl_text)
+            self.f_lookup = m.group(1) if m else None
+        if not self.f_posargs:
+            m = _re.search(r"\{\w+\}\(\{(\w+)\}\)", tpl_text)
+            self.f_posargs = m.group(1) if m else None
+        ctx.require(self.f_lookup and self.f_posargs, "the call template has no lookup / forwarded-argument field")
+        ctx.require({self.f_lookup, self.f_posargs} <= set(kw), f"the full call lacks {self.f_lookup}= / {self.f_posargs}=")
+        self.lookup = self._base_list(kw[self.f_lookup])
+        self.posargs = self._base_list(kw[self.f_posargs])
         ctx.require(self.lookup and self.posargs, "could not identify the lookup / forwarded-argument lists")
         # declaration list: passed as args= to the module template
         self.args = None
@@ -57,7 +77,7 @@ class EntryGen:
             st
             for st in all_stmts(gen.node)
             if isinstance(st, ast.For)
-            and isinstance(st.target, ast.Name)
+            and loop_var(st) is not None
             and any(isinstance(c, ast.Call) and isinstance(c.func, ast.Attribute) and c.func.attr == "append" and dotted(c.func.value) == self.args for c in ast.walk(st))
         ]
         ctx.require(len(self.param_loops) >= 3, f"expected a loop per parameter class, found {len(self.param_loops)}")
@@ -76,6 +96,21 @@ class EntryGen:
         if isinstance(e, ast.Name):
             return e.id
         return None
+
+
+def loop_var(lp):
+    """The parameter name variable of a per-parameter loop: `for name in X` or `for i, name in enumerate(X[, start])`."""
+    if isinstance(lp.target, ast.Name):
+        return lp.target.id
+    if isinstance(lp.target, ast.Tuple) and len(lp.target.elts) == 2 and all(isinstance(e, ast.Name) for e in lp.target.elts) and isinstance(lp.iter, ast.Call) and call_name(lp.iter) == "enumerate":
+        return lp.target.elts[1].id
+    return None
+
+
+def loop_iterable(lp):
+    if isinstance(lp.iter, ast.Call) and call_name(lp.iter) == "enumerate" and lp.iter.args:
+        return lp.iter.args[0]
+    return lp.iter
 
 
 def entrygen(ctx):
@@ -111,6 +146,18 @@ def _frag(node):
 
 def _strip_conv(h):
     return h[:-2] if h.endswith(("!r", "!s", "!a")) else h
+
+
+def _safe_parse(sk):
+    text = sk.text.strip()
+    if text.endswith(":"):
+        text += " pass"
+    if text.startswith(("elif ", "else:")):
+        text = "if X: pass\n" + text
+    try:
+        return ast.parse(text)
+    except SyntaxError:
+        return ast.Module(body=[], type_ignores=[])
 
 
 # ----------------------------------------------------------------- R1
@@ -186,6 +233,27 @@ def r1_pure_handover(ctx):
                 isinstance(val, ast.Call),
                 f"`{short(e.arg, 70)}` does not return the handler's call directly",
             )
+    # all hand-overs of the dependent dispatcher pass the same argument list (sibling cross-check)
+    arglists = []
+    for e in emissions(depgen.node):
+        sk = e.skeleton
+        for m in ast.walk(_safe_parse(sk)):
+            if isinstance(m, ast.Call) and isinstance(m.func, ast.Name) and sk.literal_of(m.func.id).startswith(("HANDLER", "FALLTHROUGH")):
+                holes = tuple(h for a in m.args if isinstance(a, ast.Name) for h in sk.hole_of(a.id))
+                arglists.append((e, holes))
+    ctx.require(len(arglists) >= 4, f"{depgen.key}: fewer hand-overs than the three strategies need")
+    from collections import Counter
+
+    major = Counter(h for _, h in arglists).most_common(1)[0][0]
+    for e, holes in arglists:
+        n += 1
+        ctx.ob(
+            f"{depgen.key}:args:{short(e.arg, 40)}",
+            depgen.loc(e.node),
+            f"this hand-over passes the same argument list as the other {len(arglists) - 1} hand-overs of the dependent dispatcher ({', '.join(major)})",
+            holes == major,
+            f"`{short(e.arg, 70)}` passes ({', '.join(holes)}) where its siblings pass ({', '.join(major)}): on this strategy keyword arguments are forwarded positionally (or dropped)",
+        )
     # python-level hand-over sites
     sites = []
     for f in repo.all_funcs():
@@ -247,11 +315,11 @@ def r2_one_name_three_roles(ctx, rule_filter=None):
     ctx.touch(gen)
     counter_ok_needed = []
     for lp in eg.param_loops:
-        v = lp.target.id
+        v = loop_var(lp)
         decl = _appends(lp, eg.args)
         fwd = _appends(lp, eg.posargs)
         key = _appends(lp, eg.lookup)
-        lname = short(lp.iter, 20)
+        lname = short(loop_iterable(lp), 20)
         # declaration on every path, naming only the loop variable
         from ..cfg import CFG
 
@@ -345,21 +413,52 @@ def r2_one_name_three_roles(ctx, rule_filter=None):
             )
     # the running position counter
     names = {c for _, c in counter_ok_needed}
+    ordered = sorted(counter_ok_needed, key=lambda x: x[0].lineno)
     for cn in names:
-        loops = [lp for lp, c in counter_ok_needed if c == cn]
-        inc_all = all(any(isinstance(s, ast.AugAssign) and dotted(s.target) == cn and isinstance(s.op, ast.Add) and isinstance(s.value, ast.Constant) and s.value.value == 1 for s in lp.body) for lp in loops)
-        first = min(lp.lineno for lp in loops)
-        last = max(lp.end_lineno for lp in loops)
-        assigns = [s for s in all_stmts(gen.node) if isinstance(s, ast.Assign) and any(dotted(t) == cn for t in s.targets)]
-        init0 = [s for s in assigns if s.lineno < first and isinstance(s.value, ast.Constant) and s.value.value == 0]
-        between = [s for s in assigns if first <= s.lineno <= last]
+        loops = [lp for lp, c in ordered if c == cn]
+        ok = True
+        why = ""
+        for k, lp in enumerate(loops):
+            idx_of_enum = isinstance(lp.target, ast.Tuple) and lp.target.elts[0].id == cn
+            if idx_of_enum:
+                it = lp.iter
+                start = it.args[1] if len(it.args) > 1 else next((kw.value for kw in it.keywords if kw.arg == "start"), None)
+                if k == 0:
+                    if start is not None and not (isinstance(start, ast.Constant) and start.value == 0):
+                        ok, why = False, "the first positional loop does not start at position 0"
+                else:
+                    if start is None or (isinstance(start, ast.Constant) and start.value == 0):
+                        ok, why = False, f"the loop over {short(loop_iterable(lp), 20)} restarts its positions at 0 although positional parameters precede it"
+            else:
+                inc = any(isinstance(s, ast.AugAssign) and dotted(s.target) == cn and isinstance(s.op, ast.Add) and isinstance(s.value, ast.Constant) and s.value.value == 1 for s in lp.body)
+                if not inc:
+                    ok, why = False, f"`{cn}` is not advanced in the loop over {short(loop_iterable(lp), 20)}"
+        running = [lp for lp in loops if not (isinstance(lp.target, ast.Tuple) and lp.target.elts[0].id == cn)]
+        if running:
+            first = min(lp.lineno for lp in loops)
+            last = max(lp.end_lineno for lp in loops)
+            assigns = [s for s in all_stmts(gen.node) if isinstance(s, ast.Assign) and any(dotted(t) == cn for t in s.targets)]
+            init0 = [s for s in assigns if s.lineno < first and isinstance(s.value, ast.Constant) and s.value.value == 0]
+            between = [s for s in assigns if first <= s.lineno <= last]
+            if not init0 or between:
+                ok, why = False, f"`{cn}` does not start at 0 or is reset between the positional loops"
         ctx.ob(
             f"{gen.key}:position-counter:{cn}",
             gen.loc(loops[0]),
             f"the position `{cn}` used to choose the key function starts at 0 and advances once per positional parameter across the positional loops",
-            inc_all and bool(init0) and not between,
-            "the position used to select the per-position key function does not track the parameter's real position: a type-valued argument is keyed with the wrong function",
+            ok,
+            (why or "the position counter is wrong") + ": the key function is chosen for another position than the parameter's real one, so a type-valued argument after a strictly positional prefix is keyed by its metaclass",
         )
+    if len({c for _, c in counter_ok_needed}) > 1 and len(counter_ok_needed) > 1:
+        # different counters in different positional loops: each must still continue the previous one
+        for k, (lp, cn) in enumerate(ordered):
+            if k == 0:
+                continue
+            if isinstance(lp.target, ast.Tuple) and lp.target.elts[0].id == cn:
+                it = lp.iter
+                start = it.args[1] if len(it.args) > 1 else next((kw.value for kw in it.keywords if kw.arg == "start"), None)
+                if start is None or (isinstance(start, ast.Constant) and start.value == 0):
+                    ctx.ob(f"{gen.key}:position-counter:{cn}:continues", gen.loc(lp), "a later positional loop continues the positions of the earlier ones", False, f"the loop over {short(loop_iterable(lp), 20)} restarts its positions at 0")
     # the collected optional keywords reach the call
     gen_src_ok = True
     tails = []
@@ -417,8 +516,8 @@ def r3_early_exits(ctx):
     ctx.require(early, "no early-exit call site (one per omitted optional positional) found")
     for c, lp in early:
         kw = {k.arg: k.value for k in c.keywords}
-        le = kw.get("lookup")
-        pe = kw.get("posargs")
+        le = kw.get(eg.f_lookup)
+        pe = kw.get(eg.f_posargs)
         la = le.args[0] if isinstance(le, ast.Call) and le.args else le
         pa = pe.args[0] if isinstance(pe, ast.Call) and pe.args else pe
         ls = _slices(la, eg.lookup) if la is not None else None
@@ -449,6 +548,15 @@ def r3_early_exits(ctx):
             pos_loops = [l for l in eg.param_loops if _appends(l, eg.posargs) and _frag(_appends(l, eg.posargs)[0][0].args[0]).text == "__H0__"]
             kw_loops = [l for l in eg.param_loops if l not in pos_loops]
             ok_ii = ok_ii and len(defs) == 1 and all(l.end_lineno < defs[0].lineno for l in pos_loops) and all(defs[0].lineno < l.lineno for l in kw_loops)
+        if ok_ii:
+            # the lists are complete (spread elements appended) before the early exits slice them
+            cfgg = cfg_of(ctx, gen)
+            spreads = [
+                st
+                for st in all_stmts(gen.node)
+                if isinstance(st, ast.Expr) and isinstance(st.value, ast.Call) and isinstance(st.value.func, ast.Attribute) and st.value.func.attr == "append" and dotted(st.value.func.value) in (eg.posargs, eg.lookup) and isinstance(st.value.args[0], ast.Name) and not any(st in ast.walk(l) for l in eg.param_loops)
+            ]
+            ok_ii = len(spreads) >= 2 and all(cfgg.dominated_by(cfgg.node_of(lp), [cfgg.node_of(sp)]) for sp in spreads)
         ctx.ob(
             f"{gen.key}:early-exit:{'keeps' if ok_ii else 'drops'}-keywords",
             gen.loc(c),
